@@ -33,7 +33,7 @@ pub broadcast group group_asref_std {
     ax_asref_vec_slice, ax_asref_vec_vec, ax_asref_slice_slice, ax_asref_array_slice, ax_asref_str_bytes, ax_asref_str_str,
     ax_asref_string_str, ax_asref_string_bytes, ax_asref_ref
 }
-pub broadcast group group_glue { group_asref_std, crate::p384::ax_asref_encoded_point, crate::generic_array::ax_asref_ga, ax_str_bytes_inj, ax_iter_items_vec, ax_iter_items_copied_slice }
+pub broadcast group group_glue { group_asref_std, ax_into_identity, ax_into_some, ax_string_view_inj, ax_elem_eq_str, ax_into_map_hashmap, ax_string_key_model, vstd::std_specs::hash::group_hash_axioms, crate::p384::ax_asref_encoded_point, crate::generic_array::ax_asref_ga, ax_str_bytes_inj, ax_iter_items_vec, ax_iter_items_copied_slice }
 
 // ---- external std types ---------------------------------------------------------------------
 #[verifier::external_type_specification]
@@ -59,6 +59,30 @@ pub broadcast axiom fn ax_str_bytes_inj(a: &str, b: &str)
     ensures (#[trigger] a.spec_bytes() == #[trigger] b.spec_bytes()) ==> a@ == b@;
 
 pub fn runtime_assert(b: bool) requires b {}
+// ---- more std functions the repo calls (assumed: what std does) -------------------------------
+pub assume_specification<T, E> [core::result::Result::<T, E>::unwrap_or] (res: Result<T, E>, default: T) -> (r: T)
+    ensures r == (match res { Ok(t) => t, Err(_) => default });
+pub uninterp spec fn elem_eq<T>(a: &T, b: &T) -> bool;      // PartialEq::eq of the element type
+pub broadcast axiom fn ax_elem_eq_str<'a, 'b>(a: &&'a str, b: &&'b str)
+    ensures #[trigger] elem_eq::<&str>(a, b) == ((**a)@ == (**b)@);
+pub assume_specification<T: PartialEq> [<[T]>::contains] (s: &[T], x: &T) -> (r: bool)
+    ensures r <==> exists|i: int| 0 <= i < s@.len() && #[trigger] elem_eq::<T>(&s@[i], x);
+pub uninterp spec fn into_map<K, V, I: IntoIterator<Item = (K, V)>>(i: I) -> vstd::map::Map<K, V>;
+pub broadcast axiom fn ax_into_map_hashmap<K, V, S>(h: std::collections::HashMap<K, V, S>)
+    ensures #[trigger] into_map::<K, V, std::collections::HashMap<K, V, S>>(h) == h@;
+pub assume_specification<K: Eq + core::hash::Hash, V, S: core::hash::BuildHasher, A: std::alloc::Allocator, I: IntoIterator<Item = (K, V)>>
+    [<std::collections::HashMap<K, V, S, A> as Extend<(K, V)>>::extend] (m: &mut std::collections::HashMap<K, V, S, A>, iter: I)
+    ensures final(m)@ == old(m)@.union_prefer_right(into_map::<K, V, I>(iter));
+// std conversions used for the `impl Into<Option<Footer>> + Copy` parameters (T -> T, T -> Option<T>; Option<T> -> Option<T> is the first)
+pub broadcast axiom fn ax_into_identity<T>(t: T)
+    ensures #[trigger] <T as vstd::std_specs::convert::IntoSpec<T>>::into_spec(t) == t, <T as vstd::std_specs::convert::IntoSpec<T>>::obeys_into_spec();
+pub broadcast axiom fn ax_into_some<T>(t: T)
+    ensures #[trigger] <T as vstd::std_specs::convert::IntoSpec<Option<T>>>::into_spec(t) == Some(t), <T as vstd::std_specs::convert::IntoSpec<Option<T>>>::obeys_into_spec();
+// two Strings with the same contents are the same value
+pub broadcast axiom fn ax_string_view_inj(a: String, b: String)
+    ensures (#[trigger] a@ == #[trigger] b@) ==> a == b;
+// String's Hash/Eq agree with equality of contents (vstd ships the key model only for integer/bool keys)
+pub broadcast axiom fn ax_string_key_model() ensures #[trigger] vstd::std_specs::hash::obeys_key_model::<String>();
 // <&[T; N]>::try_from(&[T]): Ok exactly when the slice has N elements
 pub assume_specification<'a, T, const N: usize> [<&'a [T; N] as TryFrom<&'a [T]>>::try_from] (s: &'a [T]) -> (r: Result<&'a [T; N], core::array::TryFromSliceError>)
     ensures s@.len() == N <==> r is Ok, r is Ok ==> r->Ok_0@ == s@;
